@@ -60,6 +60,12 @@ extern uint32_t g_ps_crun, g_ps_cfinal;     /* running value / value after the w
 /* g_a is an address the single-cell model observes (not part of the field) */
 #define PM_CELL_ADDR() ((uint64_t)g_a < g_ps_lo || (uint64_t)g_a >= g_ps_dlo)
 #define PM_IN(a, start, len) ((uint64_t)(a) >= (uint64_t)(start) && (uint64_t)(a) - (uint64_t)(start) < (uint64_t)(len))
+/* loop invariants of chunked fills: address x has been covered when the loop that
+ * started at a0 and covers k octets in all has advanced to `now` with `rest` octets to
+ * go (stated on the code's own variable `now`; after the last chunk `now` may have
+ * wrapped to 0 at the top of the 32-bit address space, hence the rest == 0 case) */
+#define PM_DONE(x, a0, now, rest, k) ((uint64_t)(x) >= (uint64_t)(a0) \
+    && ((rest) == 0 ? (uint64_t)(x) - (uint64_t)(a0) < (uint64_t)(k) : (uint64_t)(x) < (uint64_t)(now)))
 
 /* PM_DELIVER: the havocked destination octet IS the observed medium octet
  * (proof: constrains the arbitrary value just delivered; native: stores it) */
